@@ -27,10 +27,14 @@ enum Cmd {
     Append(String, Vec<u8>),
     HSet(String, Vec<(String, Vec<u8>)>),
     HDel(String, Vec<String>),
+    /// INCR (0) / DECR (1) / INCRBY (2) / DECRBY (3) with the amount as written
+    Counter(String, u8, i64),
+    GetSet(String, Vec<u8>),
+    HIncrBy(String, String, i64),
 }
 impl Cmd {
     fn key(&self) -> &str {
-        match self { Cmd::Set(k, ..) | Cmd::Del(k) | Cmd::Append(k, _) | Cmd::HSet(k, _) | Cmd::HDel(k, _) => k }
+        match self { Cmd::Set(k, ..) | Cmd::Del(k) | Cmd::Append(k, _) | Cmd::HSet(k, _) | Cmd::HDel(k, _) | Cmd::Counter(k, ..) | Cmd::GetSet(k, _) | Cmd::HIncrBy(k, ..) => k }
     }
     fn term(&self) -> String {
         match self {
@@ -39,8 +43,17 @@ impl Cmd {
             Cmd::Append(k, v) => format!("(XApp {} {})", chex(k.as_bytes()), chex(v)),
             Cmd::HSet(k, fs) => format!("(XHSet {} {})", chex(k.as_bytes()), clist(fs.iter(), |(f, v)| format!("({}, {})", chex(f.as_bytes()), chex(v)))),
             Cmd::HDel(k, fs) => format!("(XHDel {} {})", chex(k.as_bytes()), clist(fs.iter(), |f| chex(f.as_bytes()))),
+            Cmd::Counter(k, which, n) => {
+                // the model takes the signed amount: INCR = 1, DECR = -1, INCRBY n, DECRBY -n
+                let d: i128 = match which { 0 => 1, 1 => -1, 2 => *n as i128, _ => -(*n as i128) };
+                format!("(XIncrBy {} ({})%Z)", chex(k.as_bytes()), d)
+            }
+            Cmd::GetSet(k, v) => format!("(XGetSet {} {})", chex(k.as_bytes()), chex(v)),
+            Cmd::HIncrBy(k, f, n) => format!("(XHIncrBy {} {} ({})%Z)", chex(k.as_bytes()), chex(f.as_bytes()), n),
         }
     }
+    /// counter-like commands are CX events of the model (they desugar to a SET / HSET of the post-value)
+    fn is_counter_like(&self) -> bool { matches!(self, Cmd::Counter(..) | Cmd::GetSet(..) | Cmd::HIncrBy(..)) }
     fn to_command(&self) -> Command {
         match self {
             Cmd::Set(k, v, nx, xx, ex) => Command::Set { key: k.clone(), value: SDS::new(v.clone()), ex: *ex, px: None, exat: None, pxat: None, nx: *nx, xx: *xx, get: false, keepttl: false },
@@ -48,6 +61,9 @@ impl Cmd {
             Cmd::Append(k, v) => Command::Append(k.clone(), SDS::new(v.clone())),
             Cmd::HSet(k, fs) => Command::HSet(k.clone(), fs.iter().map(|(f, v)| (SDS::from_str(f), SDS::new(v.clone()))).collect()),
             Cmd::HDel(k, fs) => Command::HDel(k.clone(), fs.iter().map(|f| SDS::from_str(f)).collect()),
+            Cmd::Counter(k, which, n) => match which { 0 => Command::Incr(k.clone()), 1 => Command::Decr(k.clone()), 2 => Command::IncrBy(k.clone(), *n), _ => Command::DecrBy(k.clone(), *n) },
+            Cmd::GetSet(k, v) => Command::GetSet(k.clone(), SDS::new(v.clone())),
+            Cmd::HIncrBy(k, f, n) => Command::HIncrBy(k.clone(), SDS::from_str(f), *n),
         }
     }
 }
@@ -112,6 +128,27 @@ fn new_member(r: u64, node_level: bool) -> NodeH {
         NodeH::Node(ReplicatedShardedState::new(cfg))
     } else {
         NodeH::Actor(ReplicatedShardActor::spawn(ReplicaId(r), ConsistencyLevel::Eventual, 0))
+    }
+}
+
+const AMOUNTS: [i64; 8] = [1, 2, 3, 7, 0, 100, i64::MAX, i64::MAX - 5];
+const NUMS: [&[u8]; 6] = [b"10", b"-3", b"0", b"9223372036854775800", b"007", b"1x"];
+/// a counter-like command on the key (histories that use them, own RNG stream)
+fn gen_counter(rng2: &mut Rng, key: String, stringish: bool) -> Cmd {
+    if stringish {
+        match rng2.gen_range(0..10) {
+            0..=1 => Cmd::Counter(key, 0, 0),
+            2 => Cmd::Counter(key, 1, 0),
+            3..=4 => Cmd::Counter(key, 2, AMOUNTS[rng2.gen_range(0..AMOUNTS.len())]),
+            5 => Cmd::Counter(key, 3, AMOUNTS[rng2.gen_range(0..AMOUNTS.len())]),
+            6..=7 => Cmd::GetSet(key, NUMS[rng2.gen_range(0..NUMS.len())].to_vec()),
+            _ => Cmd::Set(key, NUMS[rng2.gen_range(0..NUMS.len())].to_vec(), false, false, None),
+        }
+    } else {
+        match rng2.gen_range(0..10) {
+            0..=6 => Cmd::HIncrBy(key, FIELDS[rng2.gen_range(0..3)].to_string(), { let a = AMOUNTS[rng2.gen_range(0..AMOUNTS.len())]; if rng2.gen_bool(0.3) { a.wrapping_neg().max(i64::MIN + 1) } else { a } }),
+            _ => Cmd::HSet(key, vec![(FIELDS[rng2.gen_range(0..3)].to_string(), NUMS[rng2.gen_range(0..NUMS.len())].to_vec())]),
+        }
     }
 }
 
@@ -196,7 +233,7 @@ fn main() {
     let args = &Args::parse(&a[1..]);
     std::panic::set_hook(Box::new(|_| {}));
     let mut out = Out::new(&args.out, "C06", args.shards, HEADER);
-    out.nontrivial_rule = "cluster histories on 3 real members (single ReplicatedShardActors, or in about a third of the kind-stable histories whole production nodes = ReplicatedShardedState with 16 shard actors, deltas collected with collect_pending_deltas and delivered in batches through apply_remote_deltas): 4-14 client commands (SET [NX|XX] [EX], DEL, APPEND, HSET of 1-6 pairs, HDEL) at random nodes on keys s (strings), h (hashes) and, in mixed histories, m (both kinds), interleaved with deliveries of already emitted deltas in random order with duplicates and drops and, in a third of the histories, crashes of nodes (a fresh member with the same replica id replays the deltas the node emitted itself), followed by redelivery of every delta to every node in random order; Coq cases for histories without EX; non-trivial = at least two nodes wrote the same key; distinct by event text".into();
+    out.nontrivial_rule = "cluster histories on 3 real members (single ReplicatedShardActors, or in about a third of the kind-stable histories whole production nodes = ReplicatedShardedState with 16 shard actors, deltas collected with collect_pending_deltas and delivered in batches through apply_remote_deltas): 4-14 client commands (SET [NX|XX] [EX], DEL, APPEND, HSET of 1-6 pairs, HDEL and, in 30 % of the histories, INCR/DECR/INCRBY/DECRBY/GETSET on string keys and HINCRBY on hash keys with amounts up to i64::MAX and non-integer values) at random nodes on keys s (strings), h (hashes) and, in mixed histories, m (both kinds), interleaved with deliveries of already emitted deltas in random order with duplicates and drops and, in a third of the histories, crashes of nodes (a fresh member with the same replica id replays the deltas the node emitted itself), followed by redelivery of every delta to every node in random order; Coq cases for histories without EX; non-trivial = at least two nodes wrote the same key; distinct by event text".into();
     let rt = tokio::runtime::Builder::new_current_thread().enable_all().build().unwrap();
     let range: Vec<u64> = match args.only { Some(i) => vec![i], None => (0..args.n).collect() };
     for i in range {
@@ -212,6 +249,7 @@ fn main() {
         let mut rng2 = case_rng(args.seed ^ 0x5eed_c06, i);
         let wide = rng2.gen_bool(0.3);
         let restarts = rng2.gen_bool(0.35);
+        let counters = rng2.gen_bool(0.3);
         let mut evs: Vec<Ev> = Vec::new();
         let mut log: Vec<(usize, String, ReplicatedValue)> = Vec::new();
         let mut died = false;
@@ -248,7 +286,12 @@ fn main() {
                     if !batch.is_empty() { hs[t].deliver(batch).await; }
                 } else {
                     let n = rng.gen_range(0..3usize);
-                    let c = gen_cmd(&mut rng, mixed, with_opts, with_ex, only_kind, wide);
+                    let mut c = gen_cmd(&mut rng, mixed, with_opts, with_ex, only_kind, wide);
+                    if counters && rng2.gen_bool(0.5) {
+                        // same key, a counter-like command instead (INCR*/GETSET on string keys, HINCRBY on hash keys)
+                        let stringish = matches!(c, Cmd::Set(..) | Cmd::Append(..)) || (matches!(c, Cmd::Del(_)) && c.key() != "h");
+                        c = gen_counter(&mut rng2, c.key().to_string(), stringish);
+                    }
                     let (reply, ds) = hs[n].exec(c.to_command()).await;
                     cmds.push((n, c.clone(), format!("{:?}", reply)));
                     evs.push(Ev::Client(n, c.clone()));
@@ -290,8 +333,8 @@ fn main() {
         let mut classes: BTreeMap<String, Vec<&'static str>> = BTreeMap::new();
         for k in &keys_used {
             let on_k: Vec<&(usize, Cmd, String)> = cmds.iter().filter(|(_, c, _)| c.key() == k).collect();
-            let has_str = on_k.iter().any(|(_, c, _)| matches!(c, Cmd::Set(..) | Cmd::Append(..)));
-            let has_hash = on_k.iter().any(|(_, c, _)| matches!(c, Cmd::HSet(..) | Cmd::HDel(..)));
+            let has_str = on_k.iter().any(|(_, c, _)| matches!(c, Cmd::Set(..) | Cmd::Append(..) | Cmd::Counter(..) | Cmd::GetSet(..)));
+            let has_hash = on_k.iter().any(|(_, c, _)| matches!(c, Cmd::HSet(..) | Cmd::HDel(..) | Cmd::HIncrBy(..)));
             let mut v = Vec::new();
             if has_str && has_hash { v.push("C06-type-change"); }
             if on_k.iter().any(|(_, c, _)| matches!(c, Cmd::Set(_, _, _, _, Some(_)))) { v.push("C06-expiry"); }
@@ -299,13 +342,13 @@ fn main() {
             classes.insert(k.clone(), v);
         }
         let ev_terms: Vec<String> = evs.iter().map(|e| match e {
-            Ev::Client(n, c) => format!("(CC {} {})", n, c.term()),
+            Ev::Client(n, c) => format!("({} {} {})", if c.is_counter_like() { "CX" } else { "CC" }, n, c.term()),
             Ev::Deliver(t, li) => format!("(CD {} {} {})", t, chex(log[*li].1.as_bytes()), rv_term(&log[*li].2, false)),
             Ev::Restart(n) => format!("(CR {})", n),
         }).collect();
         let show = json!({"commands": cmds.iter().map(|(n, c, r)| format!("node{} {:?} -> {}", n + 1, c, r)).collect::<Vec<_>>(), "deliveries": evs.iter().filter(|e| matches!(e, Ev::Deliver(..))).count(),
             "restarts": evs.iter().filter_map(|e| if let Ev::Restart(n) = e { Some(format!("node{}", n + 1)) } else { None }).collect::<Vec<_>>()});
-        for (_, c, _) in &cmds { out.count(match c { Cmd::Set(_, _, true, _, _) => "cmd:SET NX", Cmd::Set(_, _, _, true, _) => "cmd:SET XX", Cmd::Set(_, _, _, _, Some(_)) => "cmd:SET EX", Cmd::Set(..) => "cmd:SET", Cmd::Del(_) => "cmd:DEL", Cmd::Append(..) => "cmd:APPEND", Cmd::HSet(..) => "cmd:HSET", Cmd::HDel(..) => "cmd:HDEL" }); }
+        for (_, c, _) in &cmds { out.count(match c { Cmd::Set(_, _, true, _, _) => "cmd:SET NX", Cmd::Set(_, _, _, true, _) => "cmd:SET XX", Cmd::Set(_, _, _, _, Some(_)) => "cmd:SET EX", Cmd::Set(..) => "cmd:SET", Cmd::Del(_) => "cmd:DEL", Cmd::Append(..) => "cmd:APPEND", Cmd::HSet(..) => "cmd:HSET", Cmd::HDel(..) => "cmd:HDEL", Cmd::Counter(_, 0, _) => "cmd:INCR", Cmd::Counter(_, 1, _) => "cmd:DECR", Cmd::Counter(_, 2, _) => "cmd:INCRBY", Cmd::Counter(..) => "cmd:DECRBY", Cmd::GetSet(..) => "cmd:GETSET", Cmd::HIncrBy(..) => "cmd:HINCRBY" }); }
         out.count(if mixed { "history:mixed-kinds" } else { "history:kind-stable" });
         if wide { out.count("history:wide-hsets"); }
         for e in &evs { if matches!(e, Ev::Restart(_)) { out.count("event:restart"); } }
